@@ -149,24 +149,29 @@ impl AdvanceDeltas {
             // this glyph defines its own set of locations, a new sparse model is needed
             VariationModel::new(advances.keys().cloned().collect(), self.axes.axis_order())
         });
-        self.deltas.push(
-            model
-                .deltas(&advances)
-                .map_err(|e| Error::GlyphDeltaError(name.clone(), e))?
-                .into_iter()
-                .filter_map(|(region, values)| {
-                    if region.is_default() {
-                        return None;
-                    }
-                    // Only 1 value per region for our input
-                    assert!(values.len() == 1, "{} values?!", values.len());
-                    Some((
-                        region.to_write_fonts_variation_region(&self.axes),
-                        values[0].ot_round(),
-                    ))
-                })
-                .collect(),
-        );
+        let deltas = model
+            .deltas(&advances)
+            .map_err(|e| Error::GlyphDeltaError(name.clone(), e))?
+            .into_iter()
+            .filter(|(region, _)| !region.is_default())
+            .map(|(region, values)| {
+                // Only 1 value per region for our input
+                assert!(values.len() == 1, "{} values?!", values.len());
+                // deltas are stored as i16: reject what would otherwise be silently clamped
+                let rounded: f64 = values[0].ot_round();
+                if !(i16::MIN as f64..=i16::MAX as f64).contains(&rounded) {
+                    return Err(Error::OutOfBounds {
+                        what: format!("advance delta of glyph '{name}'"),
+                        value: values[0].to_string(),
+                    });
+                }
+                Ok((
+                    region.to_write_fonts_variation_region(&self.axes),
+                    values[0].ot_round(),
+                ))
+            })
+            .collect::<Result<_, _>>()?;
+        self.deltas.push(deltas);
         Ok(())
     }
 
